@@ -299,7 +299,7 @@ class Real:
         return st + ';' + self.main_status() + ';' + ''.join(self.enabled())
 
 
-def run_real(n, k, conc, src_fail, policy_or_actions, rng=None, inj=None, cont=None):
+def run_real(n, k, conc, src_fail, policy_or_actions, rng=None, inj=None, cont=None, picker=None):
     """Run the real pipeline.  `policy_or_actions` is either a list of actions (replay) or a policy name;
     returns dict(actions, steps=[(events, digest)], …)."""
     real = Real(n, k, conc, src_fail)
@@ -314,7 +314,11 @@ def run_real(n, k, conc, src_fail, policy_or_actions, rng=None, inj=None, cont=N
         for step_no in range(MAX_ACTIONS):
             if real.main.done():
                 break
-            if fixed is not None and (step_no < len(fixed) or cont is None):
+            if fixed is not None and step_no >= len(fixed) and picker is not None:
+                a = picker(real, actions)
+                if a is None:
+                    break
+            elif fixed is not None and (step_no < len(fixed) or cont is None):
                 if step_no >= len(fixed):
                     break
                 a = fixed[step_no]
@@ -535,34 +539,44 @@ def gen_random(ctx, rng, count):
 
 
 def enumerate_scope(ctx, n, k, conc, src_fail, inject, limit):
-    """Every schedule (DFS over the enabled actions of the real side, by re-running prefixes) with the
-    injection `inject` ('S', 'C0', 'C2', 'X', None) made at every position.  Returns list of (case, res)."""
+    """Every schedule (DFS over the enabled actions of the real side) with the injection `inject`
+    ('S', 'C0', 'C2', 'X', None) made at every position.  One real run per leaf: a run replays a stored
+    prefix and then follows the first option at every step, pushing the other options as new prefixes.
+    Returns (list of (case, res), whole space explored?)."""
     out = []
     case = {'n': n, 'k': k, 'conc': conc, 'src_fail': src_fail}
-    # DFS over action prefixes; state is recomputed by replay (runs are short)
     stack = [([], False)]
-    seen = 0
-    while stack and seen < limit:
-        prefix, injected = stack.pop()
-        res = run_real(n, k, conc, src_fail, list(prefix))
-        if res['bad'] or res['main'] != 'p' or not res['enabled']:
-            # complete run (or paused/hung): a leaf
-            if res['main'] == 'p' and not res['enabled'] and res['state'] == 'running' and res['conc'] == 0 \
-                    and len(prefix) < 60 and not prefix[-1:] == ['C1']:
-                stack.append((prefix + ['C1'], injected))      # end the pause, continue
-                continue
-            out.append((case, res))
-            seen += 1
-            continue
-        en = res['enabled']
-        nxt = []
+
+    def options(real, actions, injected):
+        en = real.enabled()
+        if not en:
+            p = real.pipeline
+            if p._state.value == 'running' and p._concurrency == 0 and len(actions) < 60 and actions[-1:] != ['C1']:
+                return [('C1', injected)]          # end the pause, continue
+            return []
+        opts = []
         for a in en:
-            nxt.append((prefix + [a], injected))
+            opts.append((a, injected))
             if inject == 'X' and not injected and a[0] == 'T':
-                nxt.append((prefix + ['X' + a[1:]], True))
-        if inject in ('S', 'C0', 'C1', 'C2') and not injected and prefix:
-            nxt.append((prefix + [inject], True))
-        stack.extend(reversed(nxt))
+                opts.append(('X' + a[1:], True))
+        if inject in ('S', 'C0', 'C1', 'C2') and not injected and actions:
+            opts.append((inject, True))
+        return opts
+
+    while stack and len(out) < limit:
+        prefix, injected = stack.pop()
+        state = {'inj': injected}
+
+        def picker(real, actions):
+            opts = options(real, actions, state['inj'])
+            if not opts:
+                return None
+            for (a, inj2) in reversed(opts[1:]):
+                stack.append((actions + [a], inj2))
+            state['inj'] = opts[0][1]
+            return opts[0][0]
+        res = run_real(n, k, conc, src_fail, list(prefix), picker=picker)
+        out.append((case, res))
     return out, (not stack)
 
 
@@ -687,7 +701,7 @@ def run(ctx):
     for (n, k, c) in scopes:
         for inject in injections:
             for sf in ([False, True] if (thorough and inject is None) else [False]):
-                res, whole = enumerate_scope(ctx, n, k, c, sf, inject, ctx.scale(400, 1200))
+                res, whole = enumerate_scope(ctx, n, k, c, sf, inject, ctx.scale(400, 2000))
                 total += len(res)
                 report.append(['%d items x %d tasks, concurrency %d, inject %s%s' % (n, k, c, inject, ', source raises' if sf else ''),
                                len(res), 'complete' if whole else 'capped'])
